@@ -42,6 +42,7 @@ type VerifDump struct {
 	SnapshotInProg bool
 	RewriteInProg  bool
 	LatestSnapshot int64
+	ChangeCount    uint64 // snapshot engine's write counter (hidden state that decides the automatic trigger)
 }
 
 // VerifDumpState returns a deep, sorted copy of the private state.  Must be
@@ -60,6 +61,20 @@ func (server *SugarDB) VerifDumpState(connNames map[*net.Conn]string) VerifDump 
 		SnapshotInProg: server.snapshotInProgress.Load(),
 		RewriteInProg:  server.rewriteAOFInProgress.Load(),
 		LatestSnapshot: server.latestSnapshotMilliseconds.Load(),
+	}
+	if server.snapshotEngine != nil {
+		if f := reflect.ValueOf(server.snapshotEngine).Elem().FieldByName("changeCount"); f.IsValid() {
+			for f.Kind() == reflect.Struct && f.NumField() > 0 {
+				inner := f.FieldByName("v")
+				if !inner.IsValid() {
+					break
+				}
+				f = inner
+			}
+			if f.Kind() == reflect.Uint64 {
+				d.ChangeCount = f.Uint()
+			}
+		}
 	}
 	for db, m := range server.store {
 		d.Store[db] = map[string]VerifEntry{}
